@@ -268,8 +268,6 @@ def add_c01(rep, pv, it):
     pv.start_child(lambda: EvaluateCircuit(), _prepare)
 
 
-def add_c15(rep, pv, it):
-    pass
 
 
 # ================================================================== evaluate_circuit (explicit stack) =========
@@ -473,3 +471,35 @@ class EvaluateCircuit(EvaluateFull):
         yield ('circuit-unchanged', z3.BoolVal(not [e for e in st['h'].events if e[0] in ('gate-write', 'gate-del')]))
 
 
+class _Totality:
+    """C15, third clause: under a total Boolean assignment no evaluated gate is Undefined (same loop invariants as
+    C01; only the totality clauses are emitted here)"""
+
+    def post(self, it, ctx, result, st):
+        it.fold_for = None
+        S0 = st['S0']
+        if not isinstance(result, AssignMap):
+            yield ('returns-the-assignment-dict', z3.BoolVal(False))
+            return
+        l = ctx.fresh(LabelSort, 'lres')
+        j = ctx.fresh(I, 'jres')
+        if self.full:
+            yield ('total-assignment/no-gate-undefined', z3.Implies(S0.dom(l), result.val(l) != ST_U), {'witness': 'undefined-under-total-assignment'})
+        else:
+            o = S0.out_elem(j)
+            yield ('total-assignment/no-requested-output-undefined', z3.Implies(z3.And(j >= 0, j < S0.out_n), result.val(o) != ST_U), {'witness': 'undefined-under-total-assignment'})
+
+
+class TotalFull(_Totality, EvaluateFull):
+    full = True
+    name = 'evaluate_full_circuit/totality'
+
+
+class TotalStack(_Totality, EvaluateCircuit):
+    full = False
+    name = 'evaluate_circuit/totality'
+
+
+def add_c15(rep, pv, it):
+    pv.start_child(TotalFull, _prepare)
+    pv.start_child(lambda: TotalStack(), _prepare)
